@@ -109,3 +109,40 @@ PROPS["C09"] = {
         "thorough": [J("c09", c, depth=80, deadline=600) for c in range(4)],
     },
 }
+
+PROPS["C10"] = {
+    "level": "model_checking",
+    "technique": "explicit-state BFS over ticks, 1017h writes (SDO and API), NMT commands and every other timer user as interference, against a reference heartbeat schedule",
+    "text": "Node with heartbeat producer, one heartbeat consumer, SYNC (producer switchable), an event-driven TPDO with inhibit and event time, and an application timer. 30 events: tick; 1017h := {0,1,2,3} periods by SDO and by CODictWrWord; NMT start/stop/pre-op/reset communication/reset node; SDO writes to 1800h:1/:2/:3/:5, 1005h, 1006h, 1016h:1; COTPdoTrigPdo; a changed asynchronous mapped object; application COTmrCreate/COTmrDelete; heartbeat of the monitored node (its timeouts interleave). After every step the heartbeat frames (count, DLC, state byte) must equal the reference schedule: exactly one frame every period counted from the last accepted write or reset, none otherwise. 1 kHz and 100 Hz timers, node ids 1 and 10.",
+    "note": "depth-bounded (no fixpoint: the product with the other timer users is large); other frames of a step are ignored here",
+    "jobs": {
+        "quick": [J("c10", 0, depth=7, deadline=100), J("c10", 1, depth=6, deadline=100), J("c10", 2, depth=6, deadline=100), J("c10", 3, depth=6, deadline=100)],
+        "thorough": [J("c10", c, depth=10, deadline=1200, max_states=30000000) for c in range(4)],
+    },
+}
+
+PROPS["C11"] = {
+    "level": "model_checking",
+    "technique": "explicit-state BFS over heartbeat frames, 1016h writes, counter/state queries and ticks against a reference monitor per consumer entry",
+    "text": "Consumer tables of 1..4 entries (6 initial configurations). Events: heartbeat frames of two monitored nodes and one unmonitored node with states {0,4,5,127}; SDO write of {node X|Y, time 0|2|3} and {0,0} to every entry followed by a read-back; CONmtGetHbEvents and CONmtLastHbState for the three nodes; tick; 765 ticks of silence (counter saturation); NMT stop/start/reset communication. After every step the CONmtHbConsEvent / CONmtHbConsChange callbacks (multiset per node), the return values of the queries, the SDO verdict (0604 0043h and no change for a node that is already monitored, acceptance otherwise) and the read-back value are compared with the reference; entries not addressed by a write must keep their monitoring.",
+    "note": "'already monitored' is read literally (any entry, including the written one, configured with that node and a non-zero time); depth-bounded",
+    "jobs": {
+        "quick": [J("c11", 0, depth=8, deadline=100), J("c11", 1, depth=6, deadline=100), J("c11", 2, depth=6, deadline=100), J("c11", 3, depth=5, deadline=100), J("c11", 4, depth=5, deadline=100), J("c11", 5, depth=5, deadline=100)],
+        "thorough": [J("c11", 0, depth=12, deadline=1200), J("c11", 1, depth=8, deadline=1200, max_states=30000000), J("c11", 2, depth=8, deadline=1200, max_states=30000000),
+                     J("c11", 3, depth=7, deadline=1200, max_states=30000000), J("c11", 4, depth=7, deadline=1200, max_states=30000000), J("c11", 5, depth=6, deadline=1200, max_states=30000000)],
+    },
+}
+
+PROPS["C06"] = {
+    "level": "exploration",
+    "technique": "small-scope exhaustive enumeration (every sorted dictionary over a key universe, every 8/16-bit value, every buffer length) against a linear-scan reference, with exact-size heap arrays under AddressSanitizer",
+    "text": "Four exhaustive sweeps on the real CODict*/COObj* code: (0) lookup - every subset of a sorted universe of 10 keys (14 thorough) x entry flag patterns x max in {Num+1, Num+5}, probed with every universe key and its sub+-1/index+-1 neighbours under key flags {00,01,FF}, plus strided dictionaries of 11..300 entries; result compared by pointer identity with a linear scan; the CO_OBJ array is a heap block of exactly Num+1 elements so that any access past the end marker is an ASan report; (1) type init - dictionaries of 1..6 (12) entries where every entry counts its init calls, CONodeInit must call each exactly once; (2) typed access - 12 entries (width 1/2/4 x direct/referenced x plain/node-id), all 256/65536 values, listed 32-bit patterns, node ids {1,2,63,127} (1..127), every access width against every entry width, stored raw value and untouched neighbours; (3) buffers - domains and strings of 13 (308) sizes x every length 0..4100: bytes moved == min(len,size), guards intact, second call restarts at offset 0.",
+    "note": "finite listed spaces enumerated completely; 32-bit values are a listed boundary set; a refused access only has to return an error (the code is not fixed by the statement)",
+    "rule": "cases are the elements of the four finite spaces described in the level text; non-trivial = the call under test moved data or found an entry; distinct = distinct outcome hashes",
+    "jobs": {
+        "quick":    [J("c06", 0), J("c06", 1), J("c06", 2), J("c06", 3)],
+        "thorough": [J("c06", 0), J("c06", 1), J("c06", 2, deadline=900), J("c06", 3)],
+    },
+    "bounds": {"quick": "universe 10 keys (1024 dictionaries x 6 variants) + 20 strided lengths; node ids 1,2,63,127; 13 buffer sizes x lengths 0..4100",
+               "thorough": "universe 14 keys (16384 x 6) + strided lengths 11..300; node ids 1..127; 308 buffer sizes x lengths 0..4100"},
+}
